@@ -27,7 +27,7 @@ PLAN = {
     "quick": dict(ex=[(dict(MaxLen=3, Full=False), 8000)], sim=[(dict(MaxLen=4, Full=False), 1500), (dict(MaxLen=4, Full=True), 400)]),
     # (chains of 4 steps are no longer enumerated exhaustively: with failing steps and flag combinations that space has
     #  tens of millions of chains; they are drawn by simulation instead)
-    "thorough": dict(ex=[(dict(MaxLen=3, Full=False), None), (dict(MaxLen=3, Full=True), 20000)],
+    "thorough": dict(ex=[(dict(MaxLen=3, Full=False), 30000), (dict(MaxLen=3, Full=True), 20000)],
                      sim=[(dict(MaxLen=4, Full=False), 15000), (dict(MaxLen=5, Full=True), 3000)]),
 }
 
